@@ -1,6 +1,7 @@
 import ModbusModel.Lemmas.Health
 import ModbusModel.Lemmas.Call
 import ModbusModel.Lemmas.Independent
+import ModbusModel.Props.C17
 /-
   C12 – A failed call never desynchronises the calls that follow it.
 -/
@@ -225,5 +226,75 @@ example :
     ∧ (cH.call (.readHoldingRegisters 0 1) { reads := [.data [0, 2, 0, 0, 0, 5, 7, 3], .err (.injected 3)] } none).1
         = .done (.transport (.injected 3)) := by
   decide +kernel
+
+/-! ### The same through the blocking client -/
+
+/-- blocking operations whose transport extension is benign (see `benign`) -/
+def syncBenign : SyncOp → Prop
+  | .call _ ext _ => ext.writes = [] ∧ ext.flushes = [] ∧ ∀ e ∈ ext.reads, e.isOpen = true
+  | .typed _ ext _ => ext.writes = [] ∧ ext.flushes = [] ∧ ∀ e ∈ ext.reads, e.isOpen = true
+  | .setSlave _ => True
+  | .setTimeout _ => True
+
+theorem asyncSession_benign (ops : List SyncOp) (to : Bool) (h : ∀ op ∈ ops, syncBenign op) :
+    ∀ op ∈ asyncSession to ops, benign op := by
+  induction ops generalizing to with
+  | nil => simp [asyncSession]
+  | cons o ops ih =>
+    have ih' := fun to => ih to (fun op hop => h op (by simp [hop]))
+    have ho := h o (by simp)
+    cases o with
+    | setTimeout on => simpa [asyncSession] using ih' on
+    | call req ext d =>
+      intro op hop
+      simp only [asyncSession, SyncOp.asyncOf, Option.toList, List.cons_append, List.nil_append,
+        List.mem_cons] at hop
+      rcases hop with rfl | hop
+      · exact ho
+      · exact ih' to op hop
+    | typed top ext d =>
+      intro op hop
+      simp only [asyncSession, SyncOp.asyncOf, Option.toList, List.cons_append, List.nil_append,
+        List.mem_cons] at hop
+      rcases hop with rfl | hop
+      · exact ho
+      · exact ih' to op hop
+    | setSlave id =>
+      intro op hop
+      simp only [asyncSession, SyncOp.asyncOf, Option.toList, List.cons_append, List.nil_append,
+        List.mem_cons] at hop
+      rcases hop with rfl | hop
+      · trivial
+      · exact ih' to op hop
+
+/-- **history independence through the blocking client**: after ANY benign blocking session –
+    calls and typed methods with any outcome the read side can produce, timed out at any poll or
+    completed, slave changes, timeouts switched on and off – the next blocking call returns what
+    it returns on a fresh blocking client with the same unit, transaction id and timeout setting,
+    writes the same bytes and leaves the transport in the same state -/
+theorem blocking_call_after_history_as_on_fresh_client (k : Kind) (slave : UInt8) (to : Bool)
+    (ops : List SyncOp) (hops : ∀ op ∈ ops, syncBenign op) (req : Request) (t : Transport)
+    (deadline : Budget) :
+    let sH := (runSync (SyncContext.connect k (some slave) to) {} ops).2.1
+    let fresh : SyncContext :=
+      { asyncCtx := { kind := k, unit := sH.asyncCtx.unit, nextTid := sH.asyncCtx.nextTid },
+        timeout := sH.timeout }
+    (sH.call req t deadline).1 = (fresh.call req t deadline).1
+    ∧ (sH.call req t deadline).2.2 = (fresh.call req t deadline).2.2 := by
+  intro sH fresh
+  have hsim := Props.C17.sync_session_simulates ops (SyncContext.connect k (some slave) to) {}
+  have hctx : sH.asyncCtx
+      = (runOps (Client.attachSlave k slave) {} (asyncSession to ops)).2.1 := by
+    simp only [sH]; rw [hsim]; rfl
+  have hind := call_after_history_as_on_fresh_client k slave (asyncSession to ops)
+    (asyncSession_benign ops to hops) req t (if sH.timeout then deadline else none)
+  simp only at hind
+  rw [← hctx] at hind
+  obtain ⟨h1, h2⟩ := hind
+  constructor
+  · simp only [SyncContext.call, fresh]; rw [h1]
+  · simp only [SyncContext.call, fresh]
+    rw [Prod.mk.injEq]
+    exact ⟨congrArg Prod.fst h2, congrArg Prod.snd h2⟩
 
 end Modbus.Props.C12
